@@ -86,6 +86,20 @@ Theorem C19_checker_sound : forall s0 ws obs,
 Proof. exact checker_sound. Qed.
 Print Assumptions C19_checker_sound.
 
+(** multi-member store: availability is the quorum, not one endpoint.  A client that holds the
+    endpoints of all [n] members can reach a live member for every set of stopped members that
+    leaves the quorum intact (so the pulls of C19_converges keep succeeding while one server of
+    three is stopped); a client pinned to a single member cannot (refutation witness). *)
+Theorem C19_all_endpoints_survive_minority_stop : forall n down,
+  NoDup down -> quorum n (List.length down) = true -> reachable (all_members n) down = true.
+Proof. exact all_endpoints_reach. Qed.
+Print Assumptions C19_all_endpoints_survive_minority_stop.
+
+Theorem C19_refuted_single_endpoint :
+  quorum 3 1 = true /\ reachable [1] [1] = false /\ reachable (all_members 3) [1] = true.
+Proof. exact single_endpoint_unreachable. Qed.
+Print Assumptions C19_refuted_single_endpoint.
+
 (** non-vacuity: a concrete history with a burst, a same-value put, a delete-then-recreate,
     a failed pull and a cancelled watch; three snapshots, the last one the final content *)
 Example C19_nonvacuous :
